@@ -1,6 +1,7 @@
 import SJ.Props.C09
 import SJ.Props.TypedSrc
 import SJ.Props.C09Stream
+import SJ.Props.C09LineCol
 #print axioms SJ.Props.C09.c09_slice_reader
 #print axioms SJ.Props.C09.c09_str_slice_ignored
 #print axioms SJ.Props.C09.c09_str_slice_value
@@ -18,3 +19,7 @@ import SJ.Props.C09Stream
 #print axioms SJ.Props.C09.c09_raw_sources
 #print axioms SJ.Props.C09.c09_raw_nested_sources
 #print axioms SJ.Props.C09.c09_raw_map_sources
+#print axioms SJ.Props.C09.c09_positions_agree
+#print axioms SJ.Props.C09.c09_readers_in_step
+#print axioms SJ.Props.C09.c09_untyped_line_col
+#print axioms SJ.Props.C09.c09_typed_line_col
